@@ -105,8 +105,15 @@ def time_from_serialnumber(serialnumber):
     hours = math.floor(at_hours)
     at_mins = (at_hours - hours) * 60
     mins = math.floor(at_mins)
-    secs = (at_mins - mins) * 60
-    return hours % 24, mins, int(round(secs - 1.1E-6, 0))
+    secs = int(round((at_mins - mins) * 60 - 1.1E-6, 0))
+    if secs == 60:
+        # rounded up to the next minute: carry
+        secs = 0
+        mins += 1
+        if mins == 60:
+            mins = 0
+            hours += 1
+    return hours % 24, mins, secs
 
 
 def is_leap_year(year):
